@@ -15,6 +15,14 @@ VERIF = os.path.dirname(os.path.dirname(os.path.abspath(__file__)))
 
 def load(pid=None):
     ms = json.load(open(os.path.join(VERIF, 'mutants', 'mutants.json')))
+    # the confirmed changes written by independent agents (seeded/<id>/patch.diff) are replayed the same way, on a copy
+    sd = os.path.join(VERIF, 'seeded')
+    for d in sorted(os.listdir(sd)) if os.path.isdir(sd) else []:
+        mp = os.path.join(sd, d, 'meta.json')
+        pp = os.path.join(sd, d, 'patch.diff')
+        if os.path.exists(mp) and os.path.exists(pp):
+            meta = json.load(open(mp))
+            ms.append({'id': 'seed:' + d, 'property': meta['property'], 'patch': pp, 'expect_rule': meta.get('caught_by_rule', ''), 'note': 'independent seeded change'})
     return [m for m in ms if pid is None or m['property'] == pid]
 
 
@@ -28,7 +36,11 @@ def run_one(m, repo='/repo', keep=False):
             for rel in ('versionconfig.h', 'api/libcellml/exportdefinitions.h'):
                 if os.path.exists(os.path.join(b, rel)):
                     shutil.copyfile(os.path.join(b, rel), os.path.join(tmp, '_build', 'src', rel))
-        edits = m.get('edits') or [{'file': m['file'], 'old': m['old'], 'new': m['new']}]
+        if m.get('patch'):
+            r0 = subprocess.run(['patch', '-p1', '-s', '-d', tmp, '-i', m['patch']], stdout=subprocess.PIPE, stderr=subprocess.STDOUT, text=True)
+            if r0.returncode != 0:
+                return {'id': m['id'], 'status': 'skipped', 'why': 'patch does not apply: ' + r0.stdout.strip()[-120:]}
+        edits = [] if m.get('patch') else (m.get('edits') or [{'file': m['file'], 'old': m['old'], 'new': m['new']}])
         for e in edits:
             p = os.path.join(tmp, 'src', e['file'])
             s = open(p).read()
@@ -42,7 +54,7 @@ def run_one(m, repo='/repo', keep=False):
         fired = [l.strip() for l in out.splitlines() if l.strip().startswith('rule ')]
         inst = [l.strip() for l in out.splitlines() if l.strip().startswith('instance ')]
         want = m['expect_rule']
-        hit = any(l.startswith('rule ' + want) for l in fired)
+        hit = any(l.startswith('rule ' + want) for l in fired) if want else bool(fired)
         status = 'detected' if (r.returncode == 1 and hit) else ('other-rule' if r.returncode == 1 else ('broken' if r.returncode == 2 else 'missed'))
         return {'id': m['id'], 'status': status, 'exit': r.returncode, 'expected_rule': want, 'rules_fired': sorted(set(x.split(':')[0] for x in fired)),
                 'instances': inst[:4], 'tail': out.splitlines()[-3:] if status in ('broken', 'missed') else []}
